@@ -36,23 +36,10 @@ theorem mem_phaseBlocks {conflicted : List Event} {p : Bytes × Bytes → Bool} 
   obtain ⟨g, hg, rfl⟩ := List.mem_map.mp h
   exact ⟨g, (List.mem_filter.mp hg).1, (List.mem_filter.mp hg).2, rfl⟩
 
-/-- the slots of the conflicted state events whose key satisfies `q` are empty in `s` -/
-def EmptyOn (s : V1State) (conflicted : List Event) (q : Bytes × Bytes → Bool) : Prop :=
-  ∀ e ∈ conflicted, e.stateKey.isSome → q (keyOf e) = true → s.lookup (keyOf e).1 (keyOf e).2 = none
-
-theorem EmptyOn.perm {s s' : V1State} {c c' : List Event} {q : Bytes × Bytes → Bool} (h : EmptyOn s c q) (hs : s.Sim s')
-    (hc : c ~ c') : EmptyOn s' c' q :=
-  fun e he hk hq => by rw [← hs]; exact h e (hc.mem_iff.mpr he) hk hq
-
-theorem phaseBlocks_empty {s : V1State} {conflicted : List Event} {p : Bytes × Bytes → Bool} (h : EmptyOn s conflicted p) :
-    BlocksEmpty s (phaseBlocks conflicted p) := by
+theorem phaseBlocks_slots (conflicted : List Event) (p : Bytes × Bytes → Bool) : BlocksSlots (phaseBlocks conflicted p) := by
   intro b hb
-  obtain ⟨g, hg, hp, rfl⟩ := mem_phaseBlocks hb
-  refine ⟨g.1, fun e he => ((groupByKey_mem hg).mp he).2.2, ?_⟩
-  obtain ⟨e, he⟩ := List.exists_mem_of_ne_nil _ (groupByKey_group hg).2
-  obtain ⟨h1, h2, h3⟩ := (groupByKey_mem hg).mp he
-  have := h e h1 h2 (by rw [h3]; exact hp)
-  rwa [h3] at this
+  obtain ⟨g, hg, _, rfl⟩ := mem_phaseBlocks hb
+  exact ⟨g.1, fun e he => ((groupByKey_mem hg).mp he).2.2⟩
 
 theorem groups_dist {G : List ((Bytes × Bytes) × List Event)} (hk : ∀ g ∈ G, ∀ e ∈ g.2, keyOf e = g.1)
     (hn : (G.map (·.1)).Nodup) :
@@ -95,31 +82,13 @@ theorem phaseBlocks_inj {sha : ID → Bytes} {conflicted : List Event} (h : Cand
 /-- one auth phase on two arrangements of the conflicted events, against states with equal lookups -/
 theorem phase_perm (sha : ID → Bytes) (valid : Bool) {s s' : V1State} {conflicted conflicted' : List Event}
     (p : Bytes × Bytes → Bool) (hw : s.WF) (hw' : s'.WF) (hsim : s.Sim s') (hc : conflicted ~ conflicted')
-    (hinj : CandInj sha conflicted) (hempty : EmptyOn s conflicted p) :
+    (hinj : CandInj sha conflicted) :
     (phaseRun sha valid conflicted p s).2 ~ (phaseRun sha valid conflicted' p s').2 ∧
       (phaseRun sha valid conflicted p s).1.Sim (phaseRun sha valid conflicted' p s').1 ∧
       (phaseRun sha valid conflicted p s).1.WF ∧ (phaseRun sha valid conflicted' p s').1.WF :=
-  blocks_order_irrelevant sha valid hw hw' hsim (phaseBlocks_equiv hc p) (phaseBlocks_empty hempty)
+  blocks_order_irrelevant sha valid hw hw' hsim (phaseBlocks_equiv hc p) (phaseBlocks_slots conflicted p)
     (phaseBlocks_dist conflicted p) (phaseBlocks_inj hinj p)
--- `hempty`: the slots this phase resolves hold nothing yet (see `blocks_order_irrelevant`).
-
-/-- slots of other classes stay empty through a phase -/
-theorem phase_emptyOn (sha : ID → Bytes) (valid : Bool) {s : V1State} {conflicted : List Event}
-    (p q : Bytes × Bytes → Bool) (hw : s.WF) (hempty : EmptyOn s conflicted p) (hq : EmptyOn s conflicted q)
-    (hpq : ∀ K, q K = true → p K = false) : EmptyOn (phaseRun sha valid conflicted p s).1 conflicted q := by
-  intro e he hk hqe
-  obtain ⟨r, _, hs⟩ := resolveAndAdd_spec sha valid hw (phaseBlocks_empty hempty)
-  unfold phaseRun
-  rw [hs, foldl_add_lookup_other]
-  · exact hq e he hk hqe
-  · intro x hx hxk
-    rw [← r] at hx
-    obtain ⟨b, hb, hxb⟩ := (resolveAndAddAuthBlocks_picks sha valid s (phaseBlocks conflicted p)).mem hx
-    obtain ⟨g, hg, hp, rfl⟩ := mem_phaseBlocks hb
-    have := ((groupByKey_mem hg).mp hxb).2.2
-    rw [← this, hxk] at hp
-    rw [hpq _ hqe] at hp
-    cases hp
+-- `hinj`: see `sortV1_unique`; WF / Sim: see `blocks_order_irrelevant`.
 
 /-! ## the `valid` flag and the initial state depend on the set of auth events only -/
 
@@ -193,20 +162,6 @@ theorem v1S0_sim {auth auth' : List Event} (h : SameSet auth auth') (hi : SlotIn
   foldl_add_sim (V1State.Sim.refl _) h hi
 -- `hi` (P1): the last auth event supplied for a slot is the one kept.
 
-theorem v1S0_empty {auth conflicted : List Event}
-    (h : ∀ a ∈ auth, ∀ c ∈ conflicted, a.stateKey.isSome → c.stateKey.isSome → keyOf a ≠ keyOf c)
-    (q : Bytes × Bytes → Bool) : EmptyOn (v1S0 auth) conflicted q := by
-  intro e he hk _
-  cases hl : (v1S0 auth).lookup (keyOf e).1 (keyOf e).2 with
-  | none => rfl
-  | some x =>
-    exfalso
-    rcases foldl_add_lookup_some hl with h' | ⟨hx, hxs, hxk⟩
-    · rw [lookup_empty] at h'; cases h'
-    · exact h x hx e he hxs hk hxk
--- `h` (P2): the initial state holds exactly the supplied auth events, each in its own slot.
-
-
 /-! ## a sequence of auth phases -/
 
 def runPhases (sha : ID → Bytes) (valid : Bool) (conflicted : List Event) :
@@ -218,23 +173,17 @@ def runPhases (sha : ID → Bytes) (valid : Bool) (conflicted : List Event) :
 
 theorem runPhases_perm (sha : ID → Bytes) (valid : Bool) {conflicted conflicted' : List Event} (hc : conflicted ~ conflicted')
     (hinj : CandInj sha conflicted) (ps : List (Bytes × Bytes → Bool))
-    (hex : ps.Pairwise (fun p q => ∀ K, q K = true → p K = false))
-    {s s' : V1State} (hw : s.WF) (hw' : s'.WF) (hsim : s.Sim s') (hempty : ∀ p ∈ ps, EmptyOn s conflicted p) :
+    {s s' : V1State} (hw : s.WF) (hw' : s'.WF) (hsim : s.Sim s') :
     (runPhases sha valid conflicted ps s).2 ~ (runPhases sha valid conflicted' ps s').2 ∧
       (runPhases sha valid conflicted ps s).1.Sim (runPhases sha valid conflicted' ps s').1 ∧
       (runPhases sha valid conflicted ps s).1.WF ∧ (runPhases sha valid conflicted' ps s').1.WF := by
   induction ps generalizing s s' with
   | nil => exact ⟨Perm.refl _, hsim, hw, hw'⟩
   | cons p ps ih =>
-    rw [List.pairwise_cons] at hex
-    have hp := hempty p List.mem_cons_self
-    obtain ⟨r1, s1, w1, w1'⟩ := phase_perm sha valid p hw hw' hsim hc hinj hp
-    have he : ∀ q ∈ ps, EmptyOn (phaseRun sha valid conflicted p s).1 conflicted q := fun q hq =>
-      phase_emptyOn sha valid p q hw hp (hempty q (List.mem_cons_of_mem _ hq)) (hex.1 q hq)
-    obtain ⟨r2, s2, w2, w2'⟩ := ih hex.2 w1 w1' s1 he
+    obtain ⟨r1, s1, w1, w1'⟩ := phase_perm sha valid p hw hw' hsim hc hinj
+    obtain ⟨r2, s2, w2, w2'⟩ := ih w1 w1' s1
     exact ⟨r1.append r2, s2, w2, w2'⟩
--- `hex`: a phase registers winners in the slots of its own class only, so the slots of later classes stay empty.
--- `hempty`: see `phase_perm`.
+-- see `phase_perm`.
 
 theorem bool_excl_symm {a b : Bool} (h : a = true → b = false) : b = true → a = false := by
   cases a <;> cases b <;> simp_all
@@ -286,18 +235,16 @@ theorem normalBlocks_perm (sha : ID → Bytes) (valid : Bool) {s s' : V1State} (
 theorem v1_perm_invariant (sha : ID → Bytes) {conflicted conflicted' auth auth' : List Event}
     (hc : conflicted ~ conflicted') (ha : SameSet auth auth')
     (P1 : ∀ a ∈ auth, ∀ b ∈ auth, a.stateKey.isSome → keyOf a = keyOf b → b.stateKey.isSome → a = b)
-    (P2 : ∀ a ∈ auth, ∀ c ∈ conflicted, a.stateKey.isSome → c.stateKey.isSome → keyOf a ≠ keyOf c)
     (P3 : ∀ a ∈ conflicted, ∀ b ∈ conflicted, a.stateKey.isSome → b.stateKey.isSome → keyOf a = keyOf b →
       a.depth = b.depth → sha a.eventID = sha b.eventID → a = b) :
     resolveV1 sha conflicted auth ~ resolveV1 sha conflicted' auth' := by
   rw [resolveV1_eq_phases, resolveV1_eq_phases, ← v1Valid_sameSet ha]
-  obtain ⟨r, s, w, w'⟩ := runPhases_perm sha (v1Valid auth) hc P3 v1Phases v1Phases_excl (v1S0_wf auth) (v1S0_wf auth')
-    (v1S0_sim ha P1) (fun p _ => v1S0_empty P2 p)
+  obtain ⟨r, s, w, w'⟩ := runPhases_perm sha (v1Valid auth) hc P3 v1Phases (v1S0_wf auth) (v1S0_wf auth') (v1S0_sim ha P1)
   exact r.append (normalBlocks_perm sha _ w w' s (phaseBlocks_equiv hc pOther) (phaseBlocks_inj P3 pOther))
 -- P1: of two different supplied auth events for one slot the later one is kept, which depends on their order.
--- P2: the resolver's documented input is "the unconflicted auth events needed for auth checks"; an auth event in the
---     slot of a conflicted group is seen by the blocks resolved before that group and is gone (slot cleared) for the
---     blocks resolved after it, so the outcome would depend on the order of the blocks.
 -- P3: the sort is by (depth, sha1) only and stable, so two candidates with the same pair keep their input order.
+-- (The former hypothesis P2 — no supplied auth event in the slot of a conflicted event — is no longer needed: a block
+--  puts the previous occupant of its slot back, and the winners registered after a phase overwrite the supplied event
+--  of their slot whatever the order, since winners of one phase have pairwise distinct slots.)
 
 end V.StateRes
